@@ -28,7 +28,7 @@ type c16Case struct {
 func init() {
 	engine.Register(&engine.Check{
 		ID: "C16", Level: "model_checking",
-		Rule:   "for every geometry of the universe U (7 cloneable types x 6 layouts, built by SetCoords, by New*Flat with spare capacity, and with empty-but-non-nil slices) plus points, lines and multipoints whose ordinates are all (or singly) one of 9 special floats, plus larger structures (6..33 polygons / 12..66 parts / 18..99 points), Coord and Bounds: c=g.Clone(); equality of type/layout/SRID/structure/bits; then every mutation history of depth <=2 (quick) / <=3 (thorough) over {overwrite all ordinates incl. spare capacity, overwrite all end offsets incl. spare capacity, Push, Reverse, SetCoords, SetSRID, TransformInPlace} x {original, clone}; after every transition the full state (incl. capacity contents) of the side not operated on must be unchanged. state = (geometry, construction, history) Also: Bounds cloned after every pre-history of <=2 operations (layout promoted by Extend, more stored dimensions than the layout after Set). Round 7: every layout-less (NoLayout) empty geometry in all three constructions, compared through the flat accessors, Reverse under a watchdog. Round 8: clone of a geometry whose last end offset was made smaller through Ends()/Endss() before cloning.",
+		Rule:   "for every geometry of the universe U (7 cloneable types x 6 layouts, built by SetCoords, by New*Flat with spare capacity, and with empty-but-non-nil slices) plus points, lines and multipoints whose ordinates are all (or singly) one of 9 special floats, plus larger structures (6..33 polygons / 12..66 parts / 18..99 points), Coord and Bounds: c=g.Clone(); equality of type/layout/SRID/structure/bits; then every mutation history of depth <=2 (quick) / <=3 (thorough) over {overwrite all ordinates incl. spare capacity, overwrite all end offsets incl. spare capacity, Push, Reverse, SetCoords, SetSRID, TransformInPlace} x {original, clone}; after every transition the full state (incl. capacity contents) of the side not operated on must be unchanged. state = (geometry, construction, history) Also: Bounds cloned after every pre-history of <=2 operations (layout promoted by Extend, more stored dimensions than the layout after Set). Round 7: every layout-less (NoLayout) empty geometry in all three constructions, compared through the flat accessors, Reverse under a watchdog. Round 8: clone of a geometry whose last end offset was made smaller through Ends()/Endss() before cloning. Round 10: multipolygons and polygons with 65..129 rings (rows of end offsets beyond a small block).",
 		Run:    c16Run,
 		Replay: func(c *engine.Ctx, kind string, raw json.RawMessage) { c16Exec(c, decodeCase[c16Case](raw)) },
 		Assumptions: []string{
